@@ -671,6 +671,19 @@ func CheckC11(c *Ctx) {
 		if o == nil {
 			return
 		}
+		// an object that has just REFUSED a Set is a reachable object too: every 4th object gets a few
+		// failing Sets (illegal values of several kinds, on random metrics) before it is scored
+		if w.R.Intn(4) == 0 {
+			for k := 0; k < 3; k++ {
+				m := w.R.Intn(v.N())
+				bad := []string{"X", "ND", "", "x", "Z", "N ", "HH", "S"}[w.R.Intn(8)]
+				if v.ValueIndex(m, bad) >= 0 {
+					continue
+				}
+				probe.SafeSet(o, v.Metrics[m].Abv, bad)
+				w.Count("objects-scored-after-failed-Set")
+			}
+		}
 		for i := 0; i < api.NRounded; i++ {
 			name := api.ScoreNames[i]
 			w.Enter(name, "")
